@@ -94,17 +94,25 @@ func implDecode(m *bind.Msg, entry string, data []byte) *implResult {
 	return r
 }
 
+// encodeSpare is the spare capacity (octets behind the existing contents) of the buffer the encoders are handed:
+// callers re-use buffers, pre-size them, or write a security header first.
+var encodeSpare int
+
+func encodeBuffer(pre []byte) *bytes.Buffer {
+	return bytes.NewBuffer(append(make([]byte, 0, len(pre)+encodeSpare), pre...))
+}
+
 func implEncode(m *bind.Msg, entry string, r *implResult, pre []byte) (out []byte, err error, pi *core.PanicInfo) {
 	pi = core.Try(func() {
 		switch entry {
 		case "direct":
-			buf := bytes.NewBuffer(append([]byte{}, pre...))
+			buf := encodeBuffer(pre)
 			err = implEncodeDirect(r.name, r.body, buf)
 			out = buf.Bytes()
 		case "plain":
 			out, err = r.msg.PlainNasEncode()
 		case "family":
-			buf := bytes.NewBuffer(append([]byte{}, pre...))
+			buf := encodeBuffer(pre)
 			if r.msg.GmmMessage != nil {
 				err = r.msg.GmmMessageEncode(buf)
 			} else {
@@ -332,6 +340,24 @@ func c04Exec(c *core.Ctx, spec *refcodec.Spec, m *bind.Msg, entry string, data [
 	if d := compareValues(tm, iv, ref.Value); d != "" {
 		slot := strings.SplitN(d, ":", 2)[0]
 		c.FailCase("decode|"+name+"."+slot+"|field-value", fmt.Sprintf("%s via %s: %s", name, ent, d), "bytes", describeCase(m, entry, data))
+		return
+	}
+	// the encoder half on canonical strings (only known elements, each at most once, in table order): what the encoder
+	// emits for the decoded message is exactly the input — into an empty buffer, and into buffers that already hold
+	// octets and have spare capacity (a re-used or pre-sized buffer, a security header written first)
+	if ref.Canonical() && entry != "plain" {
+		for _, v := range []struct {
+			pre   []byte
+			spare int
+		}{{nil, 0}, {nil, 64}, {[]byte{0x7E, 0x02, 9, 8, 7, 6, 5}, 4096}} {
+			encodeSpare = v.spare
+			out, err, pi := implEncode(m, entry, r, v.pre)
+			encodeSpare = 0
+			if pi != nil || err != nil || len(out) < len(v.pre) || !bytes.Equal(out[:len(v.pre)], v.pre) || !bytes.Equal(out[len(v.pre):], data) {
+				c.FailCase("encode|"+name+"|canonical-bytes", fmt.Sprintf("%s via %s: the encoder emits %x (%v %v) for the message decoded from the canonical string %x (buffer holding %d octets, %d spare)", name, ent, clip(out), err, pi, clip(data), len(v.pre), v.spare), "bytes", describeCase(m, entry, data))
+				return
+			}
+		}
 	}
 }
 
@@ -504,6 +530,19 @@ func c10Exec(c *core.Ctx, m *bind.Msg, entry string, data []byte, n int64) {
 		}
 		encBefore := mapOrderReached()
 		out0, _, _ := implEncode(m, entry, r2, nil)
+		if entry != "plain" {
+			// the same into buffers with spare capacity behind their contents (a re-used or pre-sized buffer): an encoder
+			// that takes scratch space from the buffer's own spare room must still only append
+			for _, sp := range []int{3, 64, 4096} {
+				encodeSpare = sp
+				outS, errS, piS := implEncode(m, entry, r2, pre)
+				encodeSpare = 0
+				if piS != nil || errS != nil || len(outS) < len(pre) || !bytes.Equal(outS[:len(pre)], pre) || !bytes.Equal(outS[len(pre):], out0) {
+					c.FailCase("encode|"+ent+"|depends-on-spare-capacity", fmt.Sprintf("%s via %s: into a buffer holding %d octets with %d octets of spare capacity the encoder produces %x (%v %v), into an empty buffer %x", r.name, ent, len(pre), sp, clip(outS), errS, piS, clip(out0)), "bytes", describeCase(m, entry, data))
+					return
+				}
+			}
+		}
 		for _, ord := range mapOrdersAfter(encBefore) {
 			if ord == mapOrderCurrent() {
 				continue
